@@ -27,7 +27,7 @@ class World:
                 s.q = nn.Parameter(sg.Tensor(QV.copy(), requires_grad=True))
         self.mod = M()
         # lr = 0: a step leaves the values alone (so the forward-mode reference stays valid) but runs the whole update path
-        self.opt = sg.optim.SGD(self.mod.parameters(), lr=0.0, momentum=0.9, weight_decay=0.5, maximize=True)
+        self.opt = sg.optim.SGD(self.mod.parameters(), lr=0.0, weight_decay=0.5, maximize=True)   # no momentum: no hidden optimizer state, and no buffer that could overflow
         self.t = {"p": self.mod.p, "q": self.mod.q, "c": sg.Tensor(CV.copy()), "huge": sg.Tensor(HUGE.copy())}
         # forward-mode reference: value, d/dp, d/dq (all ops are element-wise -> diagonal Jacobians)
         self.dual = {"p": (PV, np.ones(2), np.zeros(2)), "q": (QV, np.zeros(2), np.ones(2)), "c": (CV, np.zeros(2), np.zeros(2)),
@@ -157,7 +157,7 @@ def run(tier, seed):
            "pruned_violating_transitions": res.pruned,
            "rule": f"all histories up to depth {depth} over: build y1=p*q, h=p*c, y3=h*h, z=y1*c, z2=y1+y3, w=q*q on shared Parameters "
                    "p,q of one Module/optimizer; backward(root, g) for every existing node AND leaf as root, g in {(1,1),(0.5,-2)}, "
-                   "plain or under retain_grads; retain_grad(node); p.zero_(), q.zero_(), module.zero_grad(), optimizer.zero_grad(); optimizer.step() of an SGD(lr=0, momentum, "
+                   "plain or under retain_grads; retain_grad(node); p.zero_(), q.zero_(), module.zero_grad(), optimizer.zero_grad(); optimizer.step() of an SGD(lr=0, "
                    "weight decay, maximize) - reads gradients, must leave them alone. "
                    "After every event: .grad of p and q == ledger (sum of forward-mode contributions since last reset), unreachable "
                    "leaves byte-identical, every caller-owned g byte-identical"}
